@@ -272,13 +272,15 @@ func c08Histories(run *vl.Run, depth int) {
 		{"8/8/8/1k1pP3/8/8/8/4K2R w K d6 0 2", "8/8/8/1k1pP3/8/8/8/4K2R w K - 0 2"},
 		{"4k3/8/8/8/7q/8/3PPPP1/3QKB2 w - - 0 1", "n1n5/PPPk4/8/8/8/8/4Kppp/5N1N b - - 0 1"},
 		{"r3k2r/8/8/8/8/8/8/R3K2R w KQkq - 0 1", "r3k2r/8/8/8/8/8/8/R3K2R b KQkq - 0 1"},
+		{"4r2k/8/8/8/8/8/3B4/4K3 w - - 0 1", "7k/8/8/8/8/5n2/3B4/4K3 w - - 0 1"}, // both in check: slider with interposition squares / knight
 	}
 	type op struct {
 		name string
 		pos  int // 0 = A, 1 = B, -1 none
 		n    int // moves to take; 0 = drain
 	}
-	ops := []op{{"A:next1", 0, 1}, {"A:next3", 0, 3}, {"B:next1", 1, 1}, {"B:next3", 1, 3}, {"A:drain", 0, 0}, {"B:drain", 1, 0}, {"reset", -1, -1}, {"A:setpv", 0, -2}, {"B:setpv", 1, -2}}
+	ops := []op{{"A:next1", 0, 1}, {"A:next3", 0, 3}, {"B:next1", 1, 1}, {"B:next3", 1, 3}, {"A:drain", 0, 0}, {"B:drain", 1, 0}, {"reset", -1, -1}, {"A:setpv", 0, -2}, {"B:setpv", 1, -2},
+		{"A:batch", 0, -3}, {"B:batch", 1, -3}} // batch generation by the same instance (evasion mode when in check)
 	var seqs [][]int
 	var gen func(cur []int)
 	gen = func(cur []int) {
@@ -322,6 +324,25 @@ func c08Histories(run *vl.Run, depth int) {
 				case o.n == -1:
 					mg.ResetOnDemand()
 					cur, got, exhausted, pv = -1, nil, false, MoveNone
+				case o.n == -3:
+					// the batch generator of the same instance in between: its own result must be right, and it must not
+					// disturb a phased iteration that is resumed afterwards only after a reset (documented use)
+					var bm []Move
+					if msg, pan := vl.Guard(func() {
+						bm = copyMoves(*mg.GeneratePseudoLegalMoves(pos[o.pos], movegen.GenAll, pos[o.pos].HasCheck()))
+					}); pan {
+						bad = "panic:" + panicKind(msg)
+						break
+					}
+					if !eng.EqualT(eng.TuplesOfMoves(bm), sets[o.pos]) {
+						bad = "batch-differs-after-history"
+						got = bm
+					}
+					if cur == o.pos && len(got) > 0 && !exhausted {
+						bad = "skip" // batch generation in the middle of a phased iteration of the same position: not a documented use
+					}
+					// (a phased iteration of the other position that was under way simply goes on afterwards: the batch
+					// generator has its own buffer and does not touch the phased state)
 				case o.n == -2:
 					if cur == o.pos && len(got) > 0 && !exhausted {
 						// changing the PV in the middle of an iteration is not a documented use: skip sequence
